@@ -1759,13 +1759,10 @@ class VM:
                 else arr.length
             )
 
-            # Create new typed array of same type
+            # New typed array of the same type: a view on the same storage
             result = type(arr)(max(0, end - begin))
-            for i in range(begin, end):
-                result.set_index(i - begin, arr.get_index(i))
-            # Share the same buffer if the original has one
-            if hasattr(arr, "_buffer"):
-                result._buffer = arr._buffer
+            result._buffer = arr._ensure_buffer()
+            result._byte_offset = arr._byte_offset + begin * arr._element_size
             return result
 
         def set_fn(*args):
